@@ -57,7 +57,7 @@ class Flow(object):
         gids = [g.id if hasattr(g, "id") else g for g in (guard_nodes or [])]
         return self.cfg.dominated(tids, gids, guard_edge, self.avoid, start)
 
-    def dominated_ps(self, targets, track, guard_nodes=None, guard_edge=None):
+    def dominated_ps(self, targets, track, guard_nodes=None, guard_edge=None, start=None):
         """Path-sensitive variant of ``dominated``: the values of the local
         names in ``track`` are followed along each path while they are
         constants (True/False/None/ints/strs), and a test on such a name
@@ -111,7 +111,10 @@ class Flow(object):
             return st
 
         init = tuple(sorted((nm, U) for nm in track))
-        ins, outs = self.cfg.forward(init, transfer, edge_transfer=edge)
+        ins, outs = self.cfg.forward(init, transfer, edge_transfer=edge, starts=start)
+        if start is not None:
+            # a start node that is itself a target does not count as 'reached'
+            return not any(outs_reach(ins, t, start) for t in tids)
         return not any(ins[t] for t in tids)
 
     def witness(self, targets, guard_nodes=None, guard_edge=None, start=None):
@@ -217,6 +220,10 @@ class Flow(object):
         if simplify:
             alts = [simplify_expr(a, self.env) for a in alts]
         return sorted(set(unparse(a) for a in alts))
+
+
+def outs_reach(ins, t, start):
+    return bool(ins[t]) and t not in start
 
 
 def simplify_expr(expr, env):
